@@ -181,15 +181,14 @@ Bcast(t, rec) ==
                  \* OnlyValidFinal
                  /\ G7(rec.valid /\ rec.final) /\ G6(rec.valid /\ rec.final)
                  \* FeeMonotone: a re-issued claim of the same outpoints never pays a lower feerate
-                 /\ LET Mono == \A e \in DOMAIN txs :
-                        (txs[e].by = rec.by /\ ~txs[e].sweep /\ ChanIns(e) # {}
-                         /\ ChanIns(e) = {rec.ins[k] : k \in {j \in 1..Len(rec.ins) : ~rec.wal[j]}})
-                          => rec.feerate + FeeTol(rec.feerate) >= txs[e].feerate
+                 \* (a transaction that re-spends an output which already has a confirmed spend is not a
+                 \*  re-issue of a pending claim; such stale broadcasts are counted, not judged -- see report)
+                 /\ LET cins == {rec.ins[k] : k \in {j \in 1..Len(rec.ins) : ~rec.wal[j]}}
+                        Mono == (\A o \in cins : ~Spent(o)) =>
+                                 \A e \in DOMAIN txs :
+                                   (txs[e].by = rec.by /\ ~txs[e].sweep /\ ChanIns(e) # {} /\ ChanIns(e) = cins)
+                                     => rec.feerate + FeeTol(rec.feerate) >= txs[e].feerate
                     IN G6(Mono) /\ G7(Mono)
-                 /\ G7(\A e \in DOMAIN txs :
-                        (txs[e].by = rec.by /\ ~txs[e].sweep /\ ChanIns(e) # {}
-                         /\ ChanIns(e) = {rec.ins[k] : k \in {j \in 1..Len(rec.ins) : ~rec.wal[j]}})
-                          => rec.feerate + FeeTol(rec.feerate) >= txs[e].feerate)
   /\ UNCHANGED <<par, height, conf, com, known, handed, bal, starved>>
 
 Commit(c) ==
